@@ -184,7 +184,7 @@ fn masked(ncoef: usize, masks: &[u32], assigns: &[Vec<Q1>]) -> Vec<Vec<Q1>> {
 pub fn run(ctx: &Ctx) -> (&'static str, &'static str) {
     let q = q();
     let _ = frob_table();
-    let fa = fq_small_alphabet(ctx, ctx.tier.pick(2, 4));
+    let fa = fq_small_alphabet(ctx, ctx.tier.pick(2, 12));
     ctx.require(fa.len() >= 10, "Fq alphabet too small");
     // ---------------- Fq2: all pairs of the Fq alphabet
     let mut e2: Vec<(Fq2, Q2)> = vec![];
@@ -295,19 +295,19 @@ pub fn run(ctx: &Ctx) -> (&'static str, &'static str) {
     for g in &gens {
         c12.push(q12_coeffs(g));
     }
-    for _ in 0..ctx.tier.pick(16, 64) {
+    for _ in 0..ctx.tier.pick(16, 512) {
         c12.push((0..12).map(|_| Q1::new(alpha::rand_below(&mut rng, q))).collect());
     }
     let mut seen = HashSet::new();
     c12.retain(|v| seen.insert(v.clone()));
     let e12: Vec<(Fq12, Q12)> = c12.iter().map(|v| { let r = q12_from_coeffs(v); (fq12_of(&r), r) }).collect();
     ctx.require(e12.len() >= 500, "Fq12 alphabet too small");
-    let npairs = ctx.tier.pick(64usize, 320);
+    let npairs = ctx.tier.pick(64usize, 900);
     let step = (e12.len() / npairs).max(1);
     let mut pairs12: Vec<usize> = (0..e12.len()).step_by(step).take(npairs).collect();
     // make sure the generators are among the binary operands
     for k in 0..gens.len().min(6) {
-        let idx = e12.len() - ctx.tier.pick(16, 64) - gens.len() + k;
+        let idx = e12.len() - ctx.tier.pick(16, 512) - gens.len() + k;
         if !pairs12.contains(&idx) {
             pairs12.push(idx);
         }
